@@ -12,6 +12,7 @@ Oracle: orthogonality residual, |det-1|, exact last row, |norm-1| all <= 1e-9, f
 an in-domain call that raises is a violation.
 """
 import itertools, math
+import operator
 import numpy as np
 from mc import ref, alph
 from mc.core import call, HarnessError
@@ -464,6 +465,53 @@ def bfs(ctx, cname, k, K):
 
 # --------------------------------------------------------------------------- shards
 
+def chains(ctx, cname):
+    """accumulation: long operation chains (1000 factors) built with the binary, the in-place and the sequence forms; every
+    checkpoint value must still be a valid member (rounding drift of 1000 products is ~1e-13, far inside 1e-9)"""
+    rep = c02.Rep(cname, ctx.tier, ctx.seed)
+    kind = KIND[cname]
+    G = [g for g in rep.gens if np.all(np.abs(np.asarray(g[1])) < 1e4)][:6]
+    CP = (10, 100, 1000)
+    for (gn, gv), (hn, hv) in itertools.product(G[:4], G[:3]):
+        progs = [('x*g', lambda x, g, h: x * g), ('g*x', lambda x, g, h: g * x), ('x*g/h', lambda x, g, h: (x * g) / h), ('inv(x)*g', lambda x, g, h: x.inv() * g),
+                 ('x*=g', lambda x, g, h: operator.imul(x, g)), ('x/=g', lambda x, g, h: operator.itruediv(x, g))]        # (no repeated squaring: it doubles the drift at every step by construction)
+        if cname != 'UnitQuaternion':
+            progs.append(('interp', lambda x, g, h: (x * g).interp(0.5, start=x) if hasattr(x, 'interp') else x * g))
+        for pn, step in progs:
+            base = 'C01/%s/chain/%s/g=%s/h=%s' % (cname, pn, gn, hn)
+            if not any(ctx.want('%s/n=%d' % (base, n), walk=True) for n in CP):
+                continue
+            x, g, h = rep.make(np.asarray(gv, dtype=float)), rep.make(np.asarray(gv, dtype=float)), rep.make(np.asarray(hv, dtype=float))
+            P = dict(cls=cname, op='chain', prog=pn, g=gn.split('|')[0], h=hn.split('|')[0])
+            dead = False
+            for n in range(1, CP[-1] + 1):
+                ok, x2 = call(step, x, g, h)
+                ctx.count('transitions')
+                if not ok:
+                    cid = '%s/n=%d' % (base, min(c for c in CP if c >= n))
+                    ctx.case(cid, key=cid)
+                    ctx.fail(cid, '%s.chain' % cname, 'raises:' + type(x2).__name__, dict(P, n=n), 'step %d of %s raised %r' % (n, pn, x2))
+                    dead = True
+                    break
+                x = x2
+                if n in CP:
+                    cid = '%s/n=%d' % (base, n)
+                    ctx.case(cid, key=cid)
+                    validate(ctx, cid, '%s.chain' % cname, dict(P, n=n), x, kind, 1)
+                    ctx.count('states')
+    # the sequence product of long sequences
+    if cname != 'UnitQuaternion':
+        for (gn, gv), n in itertools.product(G[:4], (10, 100, 1000)):
+            cid = 'C01/%s/chain/prod/g=%s/n=%d' % (cname, gn, n)
+            if ctx.want(cid):
+                ctx.case(cid, key=cid)
+                ok, v = call(lambda: rep.C([np.asarray(gv, dtype=float).copy() for _ in range(n)]).prod())
+                if not ok:
+                    ctx.fail(cid, cname + '.prod', 'raises:' + type(v).__name__, dict(cls=cname, op='prod', n=n), '%r' % (v,))
+                else:
+                    validate(ctx, cid, cname + '.prod', dict(cls=cname, op='prod', n=n, g=gn.split('|')[0]), v, kind, 1)
+
+
 def shards(tier, seed):
     out = [('base3d',), ('axis',), ('classaxis',), ('norminterp',)]
     n = 8 if tier == 'quick' else 32
@@ -471,6 +519,7 @@ def shards(tier, seed):
     for c in ('SO2', 'SE2', 'SO3', 'SE3', 'UnitQuaternion'):
         K = 3 if tier == 'quick' else 8
         out += [('bfs', c, k, K) for k in range(K)]
+        out.append(('chain', c))
     return out
 
 
@@ -488,3 +537,5 @@ def run_shard(ctx, shard):
         ctor_rpy_eul(ctx, shard[1], shard[2])
     elif k == 'bfs':
         bfs(ctx, shard[1], shard[2], shard[3])
+    elif k == 'chain':
+        chains(ctx, shard[1])
